@@ -31,6 +31,22 @@ def _to_ast(v, state_cls_expr):
         return ast.Constant(v)
     if isinstance(v, EnumMember) and v.name is not None:
         return ast.Attribute(acopy(state_cls_expr), v.name, ast.Load())
+    if isinstance(v, range):
+        # a folded range kept only in the environment: written out where a
+        # residual statement still reads it (`x in valid_lengths`)
+        args = [v.start, v.stop] + ([v.step] if v.step != 1 else [])
+        return ast.Call(ast.Name("range", ast.Load()),
+                        [ast.Constant(a) for a in args], [])
+    if isinstance(v, (tuple, list, frozenset, set)) and all(
+            _plain_const(x) for x in v):
+        elts = [ast.Constant(x) for x in (
+            sorted(v, key=repr) if isinstance(v, (set, frozenset)) else v)]
+        if isinstance(v, list):
+            return ast.List(elts, ast.Load())
+        if isinstance(v, (set, frozenset)) and elts:
+            return ast.Set(elts)
+        if isinstance(v, tuple):
+            return ast.Tuple(elts, ast.Load())
     return None
 
 
